@@ -745,6 +745,16 @@ static int op_srvstate(int argc, char **argv, FILE *out) {
     return 1;
 }
 
+/* idle: nothing happens; prints the state (used after all clients are gone and all timers have run) */
+static int op_idle(int argc, char **argv, FILE *out) {
+    (void)argv;
+    if (argc != 0 || !world_ready)
+        return 0;
+    fputs("idle", out);
+    put_tail(out);
+    return 1;
+}
+
 /* pop <k>: what the server writer thread does with the client's reply queue */
 static int op_pop(int argc, char **argv, FILE *out) {
     struct client *c;
@@ -925,6 +935,7 @@ int h_rsp_op(const char *op, int argc, char **argv, FILE *out) {
     if (!strcmp(op, "writer")) return op_writer(argc, argv, out);
     if (!strcmp(op, "tick")) return op_tick(argc, argv, out);
     if (!strcmp(op, "locks")) return op_locks(argc, argv, out);
+    if (!strcmp(op, "idle")) return op_idle(argc, argv, out);
     if (!strcmp(op, "rxeval")) return op_rxeval(argc, argv, out);
     if (!strcmp(op, "reset")) return op_reset(argc, argv, out);
     if (!strcmp(op, "srvstate")) return op_srvstate(argc, argv, out);
